@@ -491,6 +491,16 @@ def check(prop, tier):
         v = dict(v)
         v["sig"] = "%s|%s" % (v["prop"], v["what"])
         viols.append(v)
+    builds = None
+    if prop == "C04":
+        # the same property one level up: whole builds of real projects (labels spelled in
+        # several ways, shared dependencies), evaluated by BuildMon's once-per-build rules
+        import fam_build
+        res2 = vlib.FamilyRun("build", tier).get(lambda: fam_build.pipeline(tier))
+        builds = res2["builds"]
+        for v in res2["violations"]:
+            if v["prop"] == "C04":
+                viols.append(dict(v, sig="C04|build|%s" % v["what"], mode="build", family="build"))
     cov = {
         "states": res["design"]["distinct"],
         "transitions": res["design"]["generated"],
@@ -510,6 +520,8 @@ def check(prop, tier):
         "family_run_shared": bool(res.get("from_cache")),
         "family_wall_s": round(res["wall_s"], 1),
     }
+    if builds is not None:
+        cov["real_project_builds_evaluated_by_BuildMon"] = builds
     if res.get("drift_error"):
         cov["design_drift_error"] = res["drift_error"]
     if res.get("drift_count"):
@@ -520,7 +532,8 @@ def check(prop, tier):
         "interleavings finer than the hook grain are only reached by free-running stress",
     ]
     return vlib.conclude(prop, tier, "model_checking", cov, t0, viols, assumptions,
-                         lambda v: {"family": "runner", "property": prop, "case": v["case"], "violation": {k: v[k] for k in ("prop", "what", "l", "at", "id", "mode")}})
+                         lambda v: {"family": v.get("family", "runner"), "property": prop, "case": v["case"],
+                                    "violation": {k: v.get(k) for k in ("prop", "what", "l", "at", "id", "mode", "around")}})
 
 
 def replay(prop, path):
@@ -530,6 +543,9 @@ def replay(prop, path):
     case = r.get("case")
     if not case:
         raise Inconclusive("replay file has no case")
+    if r.get("family") == "build":
+        import fam_build
+        return fam_build.replay(prop, path)
     wd = vlib.scratch("replay-")
     binary = vlib.build_test("runner", wd)
     traces = run_cases(binary, [case], wd)
